@@ -101,9 +101,10 @@ int main(int argc, char** argv) {
     objects();
     threads((int)vh_arg(argc, argv, "--threads", 4));
     std::vector<long> ns = vh_list(vh_sarg(argc, argv, "--n", "1,3,7,8,9,64"));
-    int layouts[4][4] = {{3, 7, 8, 2}, {2, 10, 5, 3}, {4, 8, 4, 4}, {7, 3, 16, 1}};       // (l, Bgbit, t, basebit): valid layouts (l*Bgbit >= 20, t*basebit >= 15)
+    // (l, Bgbit, t, basebit): valid layouts (l*Bgbit >= 20, t*basebit >= 15), incl. the extremes l*Bgbit = 32, t*basebit = 31, Bgbit = 2, basebit = 1
+    const int NL = 6; int layouts[NL][4] = {{3, 7, 8, 2}, {2, 10, 5, 3}, {4, 8, 4, 4}, {7, 3, 16, 1}, {2, 16, 31, 1}, {10, 2, 5, 3}};
     int q = 0;
-    for (long n : ns) for (int k = 1; k <= (int)vh_arg(argc, argv, "--kmax", 2); k++) { Cfg c = {(int)n, k, layouts[q % 4][0], layouts[q % 4][1], layouts[q % 4][2], layouts[q % 4][3]};
+    for (long n : ns) for (int k = 1; k <= (int)vh_arg(argc, argv, "--kmax", 2); k++) { Cfg c = {(int)n, k, layouts[q % NL][0], layouts[q % NL][1], layouts[q % NL][2], layouts[q % NL][3]};
         // each configuration in its own child: a crash is an observation, and the ledger of one configuration does not disturb the next
         fflush(stdout); pid_t pid = fork(); if (pid == 0) { int ord = q % 3; unsigned sd = seed + q; char tc[96]; snprintf(tc, sizeof tc, "thread of n=%d k=%d l=%d order=%d", c.n, c.k, c.l, ord);
             lifecycle(c, sd, ord);                                               // first use in this process: one-time allocations happen here
